@@ -95,10 +95,10 @@ pub fn scenario<C: Coll>(c: &mut Ctx, idx: u64, rng: &mut Rng, name: &str) {
     // --- inserting up to capacity()-len() absent keys performs no allocation ---
     {
         let room = col.capacity() - col.len();
-        let ids = absent_ids(&col, room, rng);
+        let ids = absent_ids(&col, room.min(20_000), rng);
         let a0 = ckalloc::counters();
         for (i, id) in ids.iter().enumerate() {
-            col.put(*id, 900 + i as u16);
+            col.put(*id, 900u16.wrapping_add(i as u16));
         }
         let a1 = ckalloc::counters();
         if a1.allocs != a0.allocs || a1.deallocs != a0.deallocs {
@@ -116,7 +116,8 @@ pub fn scenario<C: Coll>(c: &mut Ctx, idx: u64, rng: &mut Rng, name: &str) {
     }
 
     // --- reserve(n) / with_capacity(n): capacity() >= len()+n ---
-    let caps = boundary_values(col.capacity().max(4), rng);
+    // (for very large tables the request sizes are bounded: the inequalities are the same, the cost is not)
+    let caps = boundary_values(col.capacity().max(4).min(4096), rng);
     drop(col);
     let picked: Vec<usize> = caps.iter().copied().filter(|_| rng.chance(1, 3)).collect();
     for n in picked {
